@@ -12,7 +12,7 @@ import (
 func init() {
 	register("C12", &ruleSet{
 		run:    runC12,
-		floors: map[string]int{"O1": 1, "O2": 4, "O3": 4, "O4": 4},
+		floors: map[string]int{"O1": 1, "O2": 4, "O3": 4, "O4": 5},
 		explain: "Decides structurally for the queue limiter: (O1) bound: the enqueue is dominated by the false edge of 'backlog length >= configured maximum' (comparator " +
 			"direction; the maximum derives from the configuration after defaulting), the length read and the enqueue are one exclusive critical section of the limiter mutex, " +
 			"and the refusal edge returns at once without any blocking operation; (O2) membership typestate: after the enqueue every path to return has the caller's element " +
@@ -31,7 +31,7 @@ func runC12(p *Prog, l *Ledger) {
 	l.Rule("O4", "a waiter leaves the backlog only by its own give-up or together with the capacity handed to it (the C10/O5 evict-with-token rule on the same tree): nothing else removes a caller that is still blocked")
 	l.NotCovered = []string{"instantaneous numeric equality 'reported size = number of blocked callers' in a concurrent history (the structural clauses are its necessary conditions)"}
 	importObligations(p, l, "C10", "O4", func(o *Obligation) bool {
-		return o.Rule == "O5" && (strings.Contains(o.Key, "evict-with-token") || strings.HasSuffix(o.Key, "/delivery") || strings.HasSuffix(o.Key, "/raw-completions"))
+		return o.Rule == "O5" && (strings.Contains(o.Key, "evict-with-token") || strings.HasSuffix(o.Key, "/evict-idempotent") || strings.HasSuffix(o.Key, "/delivery") || strings.HasSuffix(o.Key, "/raw-completions"))
 	})
 	// the gauges are fed through core's supplier wrappers, which must hand every reading through (C20/O3)
 	importObligations(p, l, "C20", "O3", func(o *Obligation) bool { return o.Rule == "O3" && strings.HasSuffix(o.Key, "/passes-through") })
@@ -73,55 +73,7 @@ func runC12(p *Prog, l *Ledger) {
 	// caller (EvictFunc), which removes that caller's element - and what it calls. A sweep that removes other callers'
 	// elements (pruning "dead" waiters, compaction) takes out callers that are still blocked.
 	{
-		evictors := map[*ssa.Function]bool{}
-		for _, f := range p.Funcs {
-			if !p.InPkg(f, "limiter") {
-				continue
-			}
-			allInstrs(f, func(ins ssa.Instruction) {
-				mc, ok := ins.(*ssa.MakeClosure)
-				if !ok {
-					return
-				}
-				// the closure is (converted to) an EvictFunc, or returned by a function whose result is one
-				isEv := false
-				if nt, ok := mc.Type().(*types.Named); ok && nt.Obj().Name() == "EvictFunc" {
-					isEv = true
-				}
-				if refs := mc.Referrers(); refs != nil {
-					for _, r := range *refs {
-						switch x := r.(type) {
-						case *ssa.ChangeType:
-							if nt, ok := x.Type().(*types.Named); ok && nt.Obj().Name() == "EvictFunc" {
-								isEv = true
-							}
-						case *ssa.Return:
-							res := f.Signature.Results()
-							for i := 0; i < res.Len(); i++ {
-								if nt, ok := res.At(i).Type().(*types.Named); ok && nt.Obj().Name() == "EvictFunc" {
-									isEv = true
-								}
-								if _, isSig := res.At(i).Type().Underlying().(*types.Signature); isSig && res.Len() == 1 && f.Signature.Params().Len() >= 1 {
-									isEv = true // evictionFunc(e) func()
-								}
-							}
-						}
-					}
-				}
-				if isEv {
-					evictors[mc.Fn.(*ssa.Function)] = true
-				}
-			})
-		}
-		for i := 0; i < 2; i++ {
-			for g := range evictors {
-				allInstrs(g, func(ins ssa.Instruction) {
-					if c := p.CallOf(ins); c != nil && c.Static != nil && p.InModule(c.Static) {
-						evictors[c.Static] = true
-					}
-				})
-			}
-		}
+		evictors := c12Evictors(p)
 		var bad []string
 		n := 0
 		for _, f := range p.Funcs {
@@ -757,4 +709,59 @@ func c12PushMakesChan(p *Prog, push *ssa.Call) bool {
 		}
 	})
 	return ok && n > 0
+}
+
+// c12Evictors: the eviction functions of the limiter package - the func() a push hands to its own caller (EvictFunc),
+// which removes that caller's element - and what they call.
+func c12Evictors(p *Prog) map[*ssa.Function]bool {
+	evictors := map[*ssa.Function]bool{}
+	for _, f := range p.Funcs {
+		if !p.InPkg(f, "limiter") {
+			continue
+		}
+		allInstrs(f, func(ins ssa.Instruction) {
+			mc, ok := ins.(*ssa.MakeClosure)
+			if !ok {
+				return
+			}
+			// the closure is (converted to) an EvictFunc, or returned by a function whose result is one
+			isEv := false
+			if nt, ok := mc.Type().(*types.Named); ok && nt.Obj().Name() == "EvictFunc" {
+				isEv = true
+			}
+			if refs := mc.Referrers(); refs != nil {
+				for _, r := range *refs {
+					switch x := r.(type) {
+					case *ssa.ChangeType:
+						if nt, ok := x.Type().(*types.Named); ok && nt.Obj().Name() == "EvictFunc" {
+							isEv = true
+						}
+					case *ssa.Return:
+						res := f.Signature.Results()
+						for i := 0; i < res.Len(); i++ {
+							if nt, ok := res.At(i).Type().(*types.Named); ok && nt.Obj().Name() == "EvictFunc" {
+								isEv = true
+							}
+							if _, isSig := res.At(i).Type().Underlying().(*types.Signature); isSig && res.Len() == 1 && f.Signature.Params().Len() >= 1 {
+								isEv = true // evictionFunc(e) func()
+							}
+						}
+					}
+				}
+			}
+			if isEv {
+				evictors[mc.Fn.(*ssa.Function)] = true
+			}
+		})
+	}
+	for i := 0; i < 2; i++ {
+		for g := range evictors {
+			allInstrs(g, func(ins ssa.Instruction) {
+				if c := p.CallOf(ins); c != nil && c.Static != nil && p.InModule(c.Static) {
+					evictors[c.Static] = true
+				}
+			})
+		}
+	}
+	return evictors
 }
